@@ -42,6 +42,7 @@ CONSTANTS
   Fix1xx,       \* TRUE: interim 1xx responses are skipped                              (finding 23)
   FixBadCL,     \* TRUE: invalid Content-Length is a protocol error
   FixTrailer,   \* TRUE: the trailer is parsed leniently (no ValueError for a line without a colon)
+  FixStale,     \* TRUE: a kept connection with unread octets in its buffer is not reused (Stream.reconnect)
   FixHold       \* TRUE: header lines are held back and become response data only when the response is the final one
 
 CR == 13
@@ -176,7 +177,7 @@ InitWith(ms) ==
   /\ leftover = [i \in XS |-> 0] /\ unseen = [i \in XS |-> 0] /\ stalled = [i \in XS |-> FALSE]
   /\ reqRecs = [i \in XS |-> 0] /\ respRecs = [i \in XS |-> 0]
   /\ reqBlock = [i \in XS |-> <<>>] /\ respBlock = [i \in XS |-> <<>>]
-  /\ linked = [i \in XS |-> FALSE]
+  /\ linked = [i \in XS |-> FALSE] /\ fresh = [i \in XS |-> TRUE]
   /\ warcDone = TRUE
 
 Init == \E b1 \in Choices : \E t1 \in TruncChoices(b1) : \E s1 \in CloseChoices(b1, t1) :
@@ -191,7 +192,8 @@ Raise(kind) == pc' = "raise" /\ err' = kind
 \* ---- Session.start: (re)connect when needed, write the request; the server answers.
 \* Stream.reconnect() / the pool's clean(): connection.closed() = no reader/writer, or the reader is at EOF
 \* with an empty buffer.  (The FIN travels right behind the last data.)
-Fresh   == ~copen \/ (eof /\ buf = <<>> /\ net = <<>>)
+\* ... (FixStale) or octets were received and not read: they are surplus of the previous response
+Fresh   == ~copen \/ (eof /\ buf = <<>> /\ net = <<>>) \/ (FixStale /\ buf # <<>>)
 Answers == Fresh \/ ~eof          \* a server that has closed does not answer
 Start ==
   /\ pc = "start"
@@ -205,6 +207,7 @@ Start ==
   /\ reqRecs' = [reqRecs EXCEPT ![x] = @ + 1]
   /\ reqBlock' = [reqBlock EXCEPT ![x] = ReqTok(x)]
   /\ pc' = "hdr" /\ hdr' = <<>> /\ held' = <<>> /\ tr' = <<>> /\ bleft' = 0
+  /\ fresh' = [fresh EXCEPT ![x] = Fresh]
   /\ UNCHANGED <<msgs, ref, x, err, delivered, recorded, outcome, connClosed, leftover, unseen, stalled,
                  respRecs, respBlock, linked, warcDone>>
 
@@ -237,7 +240,7 @@ Stall ==
   /\ eof' = TRUE
   /\ stalled' = [stalled EXCEPT ![x] = TRUE]
   /\ UNCHANGED <<msgs, ref, x, pc, buf, net, copen, hdr, held, bleft, tr, err, delivered, recorded, reqRecorded, reqSent,
-                 outcome, connClosed, leftover, unseen, reqRecs, respRecs, reqBlock, respBlock, linked, warcDone>>
+                 outcome, connClosed, leftover, unseen, reqRecs, respRecs, reqBlock, respBlock, linked, fresh, warcDone>>
 
 EndsLF(l) == l # <<>> /\ l[Len(l)] = LF
 White(c) == c \in {CR, LF, 32, 9}
@@ -280,7 +283,7 @@ HdrLineAt(j) ==
                        ELSE pc' = "body" /\ Flush(l) /\ UNCHANGED <<hdr, err>>
         ELSE pc' = "hdr" /\ hdr' = Append(hdr, l[1]) /\ Hold(l) /\ UNCHANGED err
   /\ UNCHANGED <<msgs, ref, x, eof, copen, bleft, tr, delivered, reqRecorded, reqSent, outcome, connClosed, leftover,
-                 unseen, stalled, reqRecs, respRecs, reqBlock, respBlock, linked, warcDone>>
+                 unseen, stalled, reqRecs, respRecs, reqBlock, respBlock, linked, fresh, warcDone>>
 
 \* ---- Stream.read_body: choose how to read
 Body ==
@@ -307,7 +310,7 @@ LenEOF ==
   /\ Raise("network_error")
   /\ UNCHANGED <<buf, net, copen, bleft, delivered, recorded>>
   /\ UNCHANGED <<msgs, ref, x, eof, hdr, held, tr, reqRecorded, reqSent, outcome, connClosed, leftover, unseen, stalled,
-                 reqRecs, respRecs, reqBlock, respBlock, linked, warcDone>>
+                 reqRecs, respRecs, reqBlock, respBlock, linked, fresh, warcDone>>
 
 LenReadAt(k) ==
   /\ pc = "len" /\ bleft > 0
@@ -320,14 +323,14 @@ LenReadAt(k) ==
           /\ Notify(data) /\ Deliver(data)
           /\ UNCHANGED <<pc, err>>
   /\ UNCHANGED <<msgs, ref, x, eof, hdr, held, tr, reqRecorded, reqSent, outcome, connClosed, leftover, unseen, stalled,
-                 reqRecs, respRecs, reqBlock, respBlock, linked, warcDone>>
+                 reqRecs, respRecs, reqBlock, respBlock, linked, fresh, warcDone>>
 
 \* ---- _read_body_until_close
 CloseEOF ==
   /\ pc = "close" /\ AtEOF
   /\ pc' = "fin" /\ UNCHANGED <<buf, net, delivered, recorded>>
   /\ UNCHANGED <<msgs, ref, x, eof, copen, hdr, held, bleft, tr, err, reqRecorded, reqSent, outcome, connClosed, leftover,
-                 unseen, stalled, reqRecs, respRecs, reqBlock, respBlock, linked, warcDone>>
+                 unseen, stalled, reqRecs, respRecs, reqBlock, respBlock, linked, fresh, warcDone>>
 
 CloseReadAt(k) ==
   /\ pc = "close"
@@ -335,7 +338,7 @@ CloseReadAt(k) ==
           /\ Notify(Prefix(Avail(k), ReadSize)) /\ Deliver(Prefix(Avail(k), ReadSize))
           /\ UNCHANGED pc
   /\ UNCHANGED <<msgs, ref, x, eof, copen, hdr, held, bleft, tr, err, reqRecorded, reqSent, outcome, connClosed, leftover,
-                 unseen, stalled, reqRecs, respRecs, reqBlock, respBlock, linked, warcDone>>
+                 unseen, stalled, reqRecs, respRecs, reqBlock, respBlock, linked, fresh, warcDone>>
 
 \* ---- ChunkedTransferReader.read_chunk_header
 IsHex(c) == c \in 48..57 \/ c \in 97..102 \/ c \in 65..70
@@ -360,14 +363,14 @@ ChHdrAt(j) ==
           /\ pc' = IF HexVal(f, 0) = 0 THEN "trailer" ELSE "ch_body"
           /\ UNCHANGED err
   /\ UNCHANGED <<msgs, ref, x, eof, copen, hdr, held, tr, delivered, reqRecorded, reqSent, outcome, connClosed, leftover,
-                 unseen, stalled, reqRecs, respRecs, reqBlock, respBlock, linked, warcDone>>
+                 unseen, stalled, reqRecs, respRecs, reqBlock, respBlock, linked, fresh, warcDone>>
 
 \* ---- read_chunk_body, bytes_left > 0: connection.read(min(bytes_left, 4096))
 ChBodyEOF ==
   /\ pc = "ch_body" /\ AtEOF                     \* empty read: "chunk finished" -> the next header read hits EOF
   /\ pc' = "ch_hdr" /\ UNCHANGED <<buf, net, bleft, delivered, recorded>>
   /\ UNCHANGED <<msgs, ref, x, eof, copen, hdr, held, tr, err, reqRecorded, reqSent, outcome, connClosed, leftover,
-                 unseen, stalled, reqRecs, respRecs, reqBlock, respBlock, linked, warcDone>>
+                 unseen, stalled, reqRecs, respRecs, reqBlock, respBlock, linked, fresh, warcDone>>
 
 ChBodyAt(k) ==
   /\ pc = "ch_body"
@@ -377,7 +380,7 @@ ChBodyAt(k) ==
           /\ Notify(data) /\ Deliver(data)
           /\ pc' = IF bleft - Len(data) = 0 THEN "ch_nl" ELSE "ch_body"
   /\ UNCHANGED <<msgs, ref, x, eof, copen, hdr, held, tr, err, reqRecorded, reqSent, outcome, connClosed, leftover,
-                 unseen, stalled, reqRecs, respRecs, reqBlock, respBlock, linked, warcDone>>
+                 unseen, stalled, reqRecs, respRecs, reqBlock, respBlock, linked, fresh, warcDone>>
 
 \* ---- read_chunk_body, bytes_left = 0: the line end after the chunk data
 ChNlAt(j) ==
@@ -387,7 +390,7 @@ ChNlAt(j) ==
      IF Len(l) > 2 THEN Raise("protocol_error") /\ UNCHANGED recorded          \* 'Error reading newline after chunk.'
      ELSE Notify(l) /\ pc' = "ch_hdr" /\ UNCHANGED err
   /\ UNCHANGED <<msgs, ref, x, eof, copen, hdr, held, bleft, tr, delivered, reqRecorded, reqSent, outcome, connClosed,
-                 leftover, unseen, stalled, reqRecs, respRecs, reqBlock, respBlock, linked, warcDone>>
+                 leftover, unseen, stalled, reqRecs, respRecs, reqBlock, respBlock, linked, fresh, warcDone>>
 
 \* ---- read_trailer: lines until a blank one - or EOF (readline returns b'' there: finding 11);
 \*      then response.fields.parse(trailer) in strict mode: a line without a colon raises ValueError
@@ -409,7 +412,7 @@ TrailerAt(j) ==
           /\ IF BadTrailer(t) /\ ~FixTrailer THEN Raise("other_error") ELSE pc' = "fin" /\ UNCHANGED err
      ELSE tr' = t /\ UNCHANGED <<pc, err, recorded>>
   /\ UNCHANGED <<msgs, ref, x, eof, copen, hdr, held, bleft, delivered, reqRecorded, reqSent, outcome, connClosed,
-                 leftover, unseen, stalled, reqRecs, respRecs, reqBlock, respBlock, linked, warcDone>>
+                 leftover, unseen, stalled, reqRecs, respRecs, reqBlock, respBlock, linked, fresh, warcDone>>
 
 \* ---- end of read_body (should_close: the request is HTTP/1.1, so only "Connection: close" closes),
 \*      Session.download: end_response -> the recorder writes the response record
@@ -425,7 +428,7 @@ Complete(closeNow) ==
   /\ x' = IF x < NX THEN x + 1 ELSE x
   /\ pc' = IF x < NX THEN "start" ELSE "done"
   /\ UNCHANGED <<msgs, ref, buf, net, eof, hdr, held, bleft, tr, err, delivered, recorded, reqRecorded, reqSent, stalled,
-                 reqRecs, reqBlock, warcDone>>
+                 reqRecs, reqBlock, fresh, warcDone>>
 
 Fin   == pc = "fin" /\ Complete(FieldVal(KConn) = 1)
 FinNb == pc = "finnb" /\ Complete(FALSE)
@@ -442,7 +445,7 @@ RaiseErr ==
   /\ pc' = IF x < NX THEN "start" ELSE "done"
   /\ err' = "none"
   /\ UNCHANGED <<msgs, ref, buf, net, eof, hdr, held, bleft, tr, delivered, recorded, reqRecorded, reqSent, stalled,
-                 reqRecs, respRecs, reqBlock, respBlock, linked, warcDone>>
+                 reqRecs, respRecs, reqBlock, respBlock, linked, fresh, warcDone>>
 
 \* the reads with their nondeterministic choice: how far the buffer extends once the line is in (j), how many
 \* octets the arriving piece has (k)
@@ -473,7 +476,7 @@ Dev1xx(m)    == ~Fix1xx /\ m.ihead # <<>>                                       
 DevBadCL(m)  == ~FixBadCL /\ RefFraming(m) = "invalid"
 \* Content-Length: 0 followed by surplus octets: no read is made, so the surplus is never seen and the
 \* connection is kept with it
-DevSurplus0(m) == RefFraming(m) = "length" /\ m.clv = 0 /\ m.raw # <<>>
+DevSurplus0(m) == ~FixStale /\ RefFraming(m) = "length" /\ m.clv = 0 /\ m.raw # <<>>
 \* exchange i is affected by a deviation of its own message, or by the desynchronisation an earlier one left
 Dev(i) == \E j \in 1..i : DevTE(msgs[j]) \/ DevNoBody(msgs[j]) \/ Dev1xx(msgs[j]) \/ DevBadCL(msgs[j])
                            \/ DevSurplus0(msgs[j])
@@ -482,7 +485,8 @@ D_Payload      == \A i \in XS : Dev(i) \/ ((Clean(i) /\ Ok(i)) => delivered[i] =
 D_TruncIsError == \A i \in XS : Dev(i) \/ ((Clean(i) /\ Ok(i)) => ref[i].complete)
 D_CompleteIsOk == \A i \in XS : Dev(i) \/ ((Clean(i) /\ Done(i) /\ ref[i].completeS) => Ok(i))
 D_NoOverRead   == \A i \in XS : Dev(i) \/ ((Clean(i) /\ stalled[i]) => ref[i].framing = "close")
-D_Persist      == \A i \in XS : Dev(i) \/ ((Clean(i) /\ Ok(i) /\ ~connClosed[i]) => leftover[i] = 0)
+D_Persist      == \A i \in XS : Dev(i) \/ ((Clean(i) /\ Ok(i) /\ ~connClosed[i] /\ leftover[i] > 0)
+                                            => (i + 1 \in XS /\ Done(i + 1) => fresh[i + 1]))
 D_RespBytes    == \A i \in XS : Dev(i) \/ ((Clean(i) /\ Ok(i)) => RespOK(i, recorded[i]))
 D_RecBlocks    == \A i \in XS : Dev(i) \/ ((Ok(i) /\ reqRecs[i] = 1 /\ respRecs[i] = 1)
                                             => ((Clean(i) => RespOK(i, respBlock[i])) /\ reqBlock[i] = reqSent[i]))
